@@ -300,6 +300,8 @@ func execOp(s *Sexp) string {
 		return ""
 	}
 	switch h {
+	case "sched":
+		return execSched(s)
 	case "descjson":
 		return execDescJSON(s)
 	case "jsonout":
